@@ -7,8 +7,8 @@ rfbSendDirContent, rfbSendFileTransferChunk, rfbSendFileTransferMessage,
 rfbProcessFileTransferReadBuffer, rfbFilenameTranslate2UNIX, the rfbFileTransfer case of
 rfbProcessClientNormalMessage, rfbCloseClient, rfbClientConnectionGone) and of the TightVNC 1.3
 extension (handleMessage gate, ConvertPath, the seven Handle*Request functions), for the code WITH
-fixes/C19-ft-fd-leak.diff, fixes/C19-tight-upload-fd-leak.diff and
-fixes/C19-tight-path-confinement.diff.  The permission callback is a per-call oracle
+fixes/C19-ft-fd-leak.diff, fixes/C19-tight-upload-fd-leak.diff,
+fixes/C19-tight-path-confinement.diff and fixes/C19-tight-name-size-sign.diff.  The permission callback is a per-call oracle
 (`Cfg.cb : Option (Nat → Nat)`, the n-th call returns `f n`); results of libc calls are a script
 (`S.env`); the theorems quantify over ALL oracles, scripts, client states and message bytes.
 Buffer sizes and protocol numbers are regenerated from /repo on every run (VncModel/Gen/C19.lean).
@@ -24,16 +24,17 @@ WHAT THE THEOREMS SAY FOR THE PROPERTY
   named (or `<dir>/<entry>` for a listing).
 * `overlong_rejected_not_truncated`, `overlong_no_path_effect`: over-long paths are rejected, the
   translated path is never a truncation and fits its buffer.
-* `transfer_dies_with_connection`, `descriptors_accounted`: over every session, each descriptor the
-  file-transfer code opens is the recorded one or has been closed, and after teardown all are closed.
+* `descriptors_accounted`, `transfer_dies_with_connection`, `dir_handles_released`: over every
+  session (UltraVNC and TightVNC clients), each descriptor the file-transfer code opens is recorded
+  in the client state or has been closed, after teardown all are closed, and every directory handle
+  is closed before its handler returns.
+* `tight_name_size_bounded`: the TightVNC name-size field cannot become a negative `short`.
 * `tight_gate`, `tight_confined_to_root`: the extension acts only if enabled for the client,
   switched on and the client is not view-only, and every path it hands to libc is below its root.
 
-PARTIAL (spelled out where it occurs): `transfer_dies_with_connection` / `descriptors_accounted`
-are proved at full strength for the UltraVNC transfer descriptor on clients that do not use the
-TightVNC extension; for the extension's two descriptors only `teardown_releases_recorded_partial`
-is proved (what the record holds is released), the no-silent-drop half is checked by the
-correspondence run (`fds` observations), not proved.
+NOT PROVED (stated in docs/C19.md): that teardown (`cleanup`) calls are made only by
+closeClient/reapClient is by construction of the model; lexical confinement assumes a symlink-free
+tree below the TightVNC root.
 -/
 import VncModel.FileXfer.Fds
 
@@ -304,45 +305,30 @@ theorem overlong_request_names_nothing (cfg : Cfg) (cp : Nat) (buffer : Bytes)
 
 /-! ## (4) a transfer never outlives its connection -/
 
-/-- **transfer_dies_with_connection** (UltraVNC built-in transfer, fixed code, full strength).
-For a client that does not use the TightVNC extension, started in a state where every descriptor
-opened so far is accounted for (`XInv`, e.g. a fresh client), after ANY sequence of inputs — requests
-and offers in any order and number (the descriptor is overwritten only after it was closed),
-packets, headers, aborts, chunk-sender calls, permission changes by the callback, peer close —
-followed by the teardown (peer gone, rfbClientConnectionGone): every descriptor the file-transfer
-code ever opened has been closed. -/
-theorem transfer_dies_with_connection (cfg : Cfg) (inputs : List Input) (s0 : S) (h0 : XInv s0) :
-    ∀ k, Got k (reapClient (peerGone (runSession cfg s0 inputs))) →
-      Closed k (reapClient (peerGone (runSession cfg s0 inputs))) := by
-  intro k hk
-  have hi := reapClient_xinv _ (peerGone_xinv _ (runSession_xinv cfg inputs s0 h0))
-  rcases hi.1 k hk with h1 | h1
-  · rw [teardown_xf_none] at h1; exact absurd h1 (by simp)
-  · exact h1
-
-/-- and at every moment before that, an opened descriptor is the recorded one or has been closed:
-no handler forgets or overwrites a descriptor without closing it -/
+/-- **descriptors_accounted** (fixed code, UltraVNC transfer AND TightVNC extension).  Started in a
+state where every descriptor opened so far is accounted for (`XInv`, e.g. a fresh client, with or
+without the extension), at every moment of ANY session — requests and offers in any order and
+number, uploads and downloads of the extension, packets, headers, aborts, chunk-sender calls,
+permission changes by the callback, peer close, teardown — every descriptor the file-transfer code
+ever opened is recorded in the client state (`fileTransfer.fd`, `uploadFD`, `downloadFD`) or has
+been closed: no handler forgets or overwrites a descriptor without closing it. -/
 theorem descriptors_accounted (cfg : Cfg) (inputs : List Input) (s0 : S) (h0 : XInv s0) :
     ∀ k, Got k (runSession cfg s0 inputs) →
-      (runSession cfg s0 inputs).cl.xf.fd = some k ∨ Closed k (runSession cfg s0 inputs) :=
+      HeldC k (runSession cfg s0 inputs).cl ∨ Closed k (runSession cfg s0 inputs) :=
   (runSession_xinv cfg inputs s0 h0).1
 
-example : XInv (⟨{}, 0, ["#1", "100"], 0, []⟩ : S) := ⟨fun k hk => by simp [Got] at hk, rfl, rfl⟩
-
-/-- **teardown_releases_recorded_partial** (all descriptors incl. the TightVNC extension's).
-After peer-gone + rfbClientConnectionGone the client record holds no descriptor, and the UltraVNC
-one was closed by the teardown.
-PARTIAL — full strength would be `transfer_dies_with_connection` for clients that use the TightVNC
-extension as well:
-  ∀ cfg inputs s0 (fresh), ∀ k, Got k (reapClient (peerGone (runSession cfg s0 inputs))) → Closed k (…)
-Not proved: that no TightVNC handler drops `uploadFD`/`downloadFD` without closing it (it needs the
-invariant "descriptor recorded ⇒ in-progress flag set" through all seven handlers).  The model has
-the close-before-overwrite of fixes/C19-tight-upload-fd-leak.diff, and the correspondence run's
-`fds` observations + the oracle check exactly this on every run. -/
-theorem teardown_releases_recorded_partial (s : S) :
-    (reapClient (peerGone s)).cl.fds = [] ∧
-    (∀ k, s.cl.xf.fd = some k → Ev.cleanup (.close k) "" ∈ (reapClient (peerGone s)).evs) := by
-  constructor
+/-- **transfer_dies_with_connection** (full strength).  After any session followed by the teardown
+(peer gone: rfbCloseClient with the extension's close hook, then rfbClientConnectionGone), every
+descriptor the file-transfer code ever opened has been closed, and the record is empty. -/
+theorem transfer_dies_with_connection (cfg : Cfg) (inputs : List Input) (s0 : S) (h0 : XInv s0) :
+    (∀ k, Got k (reapClient (peerGone (runSession cfg s0 inputs))) →
+      Closed k (reapClient (peerGone (runSession cfg s0 inputs)))) ∧
+    (reapClient (peerGone (runSession cfg s0 inputs))).cl.fds = [] := by
+  refine ⟨fun k hk => ?_, ?_⟩
+  · have hi := reapClient_xinv _ (peerGone_xinv _ (runSession_xinv cfg inputs s0 h0))
+    rcases hi.1 k hk with h1 | h1
+    · exact absurd h1 (teardown_not_held _ k)
+    · exact h1
   · unfold reapClient peerGone
     have ht : ∀ s : S, (closeClient s).cl.tight = none := closeClient_tight
     simp only [Client.fds]
@@ -351,13 +337,58 @@ theorem teardown_releases_recorded_partial (s : S) :
     · rename_i hnone
       simp only [emit_cl, ht, hnone]
       rfl
-  · intro k h
-    unfold reapClient peerGone
-    simp only [closeClient_xf, setCl_cl, emit_cl, h]
-    simp [setCl, emit]
 
-example : (reapClient (peerGone ⟨{ xf := { fd := some 3, sending := true } }, 0, [], 3, []⟩)).cl.fds = [] :=
-  (teardown_releases_recorded_partial _).1
+/-- fresh clients satisfy the invariant: without and with the TightVNC extension -/
+example : XInv (⟨{}, 0, ["#1", "100"], 0, []⟩ : S) :=
+  ⟨fun k hk => by simp [Got] at hk, fun t ht => by cases ht⟩
+example : XInv (⟨{ tightExt := true, tight := some {} }, 0, ["#1"], 0, []⟩ : S) :=
+  ⟨fun k hk => by simp [Got] at hk,
+   fun t ht => by
+     cases ht
+     refine ⟨?_, ?_⟩ <;> intro k hk <;> simp at hk⟩
+
+/-- **dir_handles_released**.  Directory handles (`DIR*` of rfbSendDirContent and of the TightVNC
+file list): over any session the number of handles open according to the trace does not change —
+every successful opendir is matched by a closedir before its handler returns, also when sending the
+path echo or an entry fails (the closedir of fixes/C19-ft-fd-leak.diff). -/
+theorem dir_handles_released (cfg : Cfg) (inputs : List Input) (s0 : S) :
+    dirDepth (runSession cfg s0 inputs).evs = dirDepth s0.evs :=
+  dd_runSession cfg inputs s0
+
+example : dirDepth [.fs .closedir "", .wire (.ft 2 0 0 0 (.raw [])), .dirOpened, .fs (.opendir [97]) "ok 0"] = 0 := by
+  decide
+
+/-- **tight_name_size_bounded** (fixes/C19-tight-name-size-sign.diff).  The name-size field of the
+TightVNC requests is an unsigned 16-bit number: what the length-error handlers allocate and read is
+at most 65535 bytes (no conversion to a negative `short`, no huge `calloc`), and the handler either
+consumes exactly the announced name or closes the connection — the byte stream stays in sync. -/
+theorem tight_name_size_bounded (a b : UInt8) (w : Wire) (s : S) :
+    be16 a b < 65536 ∧
+    ((tLengthError (be16 a b) w s).cl.isOpen = false ∨
+     (tLengthError (be16 a b) w s).cl.inbuf = s.cl.inbuf.drop (be16 a b)) := by
+  refine ⟨?_, ?_⟩
+  · unfold be16
+    have ha := a.toNat_lt
+    have hb := b.toNat_lt
+    omega
+  · unfold tLengthError
+    simp only []
+    split
+    · left; simp
+    · right
+      rename_i hsome
+      unfold readExact at hsome ⊢
+      simp only [twire_cl]
+      split at hsome
+      · rename_i hn; simp [hn]
+      · rename_i hn
+        simp only [hn, if_false] at hsome ⊢
+        split at hsome
+        · simp at hsome
+        · split at hsome
+          · simp at hsome
+          · rename_i h1 h2
+            simp [h1, h2, setCl]
 
 /-! ## (5) the TightVNC extension: gate and confinement -/
 
